@@ -272,7 +272,7 @@ impl Check for C12 {
                 }
                 let p = Program {
                     guid: "{c12w}".into(),
-                    ops: vec![Op::Cloud(CloudSpec { guid: "{c}".into(), proto, n: *n, seed: *seed, nan_ok: true, meta: CloudMeta::default(), finalize: true })],
+                    ops: vec![Op::Cloud(CloudSpec { guid: "{c}".into(), proto, n: *n, seed: *seed, nan_ok: true, meta: CloudMeta::default(), finalize: true, clear_limits: 0 })],
                     end: End::Finalize,
                 };
                 run_program(&p, &mut v);
